@@ -904,7 +904,7 @@ func main() {
 		{"pwr/archive_healer.go", "ArchiveHealer.Do"}, {"pwr/archive_healer.go", "ArchiveHealer.heal"}, {"pwr/archive_healer.go", "ArchiveHealer.healOne"}, {"pwr/healer.go", "NewHealer"},
 		{"pwr/safekeeper.go", "safeKeeper.validateBlock"}, {"pwr/safekeeper.go", "safeKeeperReader.Read"}, {"pwr/safekeeper.go", "safeKeeper.getBlockValidator"},
 		{"pwr/patcher/patcher.go", "savingPatcher.Resume"}, {"pwr/patcher/patcher.go", "savingPatcher.skipFile"},
-		{"pwr/patcher/patcher_rsync.go", "savingPatcher.processRsync"}, {"pwr/patcher/patcher_rsync.go", "savingPatcher.isFullFileOp"}, {"pwr/patcher/patcher_rsync.go", "makeWop"},
+		{"pwr/patcher/patcher_rsync.go", "savingPatcher.processRsync"}, {"pwr/patcher/patcher_rsync.go", "savingPatcher.isFullFileOp"}, {"pwr/patcher/patcher_rsync.go", "savingPatcher.makeWop"},
 		{"pwr/patcher/patcher_bsdiff.go", "savingPatcher.processBsdiff"},
 		{"pwr/bowl/bowl_fresh.go", "freshBowl.Transpose"}, {"pwr/bowl/bowl_fresh.go", "freshEntryWriter.Resume"},
 		{"pwr/bowl/bowl_overlay.go", "overlayBowl.Commit"}, {"pwr/bowl/bowl_overlay.go", "overlayBowl.GetWriter"}, {"pwr/bowl/bowl_overlay.go", "overlayBowl.Transpose"},
@@ -923,6 +923,12 @@ func main() {
 		{"archiver/zip.go", "ExtractZip"}, {"archiver/zip.go", "CompressZip"}, {"archiver/archiver.go", "Mkdir"}, {"archiver/archiver.go", "Symlink"}, {"archiver/archiver.go", "CopyFile"},
 		{"archiver/tar.go", "ExtractTar"}, {"archiver/tar.go", "CompressTar"}, {"archiver/containerarchiver/zip.go", "CompressZip"},
 		{"multiread/multiread.go", "multiread.Do"}, {"taskgroup/taskgroup.go", "Do"}, {"ctxcopy/ctxcopy.go", "DoBuffer"},
+		{"pwr/patcher/patcher.go", "savingPatcher.processFile"}, {"pwr/patcher/simple.go", "PatchFresh"},
+		{"pwr/bowl/bowl_pool.go", "poolBowl.Transpose"}, {"pwr/bowl/bowl_pool.go", "poolBowl.GetWriter"}, {"pwr/bowl/bowl_pool.go", "poolEntryWriter.Close"},
+		{"bsdiff/patch.go", "PatchContext.NewIndividualPatchContext"}, {"compressors/gzip/gzip.go", "gzipCompressor.Apply"}, {"decompressors/gzip/gzip.go", "gzipDecompressor.Apply"},
+		{"compressors/cbrotli/cbrotli.go", "brotliCompressor.Apply"}, {"wire/write_context.go", "WriteContext.Close"}, {"wire/write_context.go", "WriteContext.WriteMagic"},
+		{"pwr/validator.go", "IsNotExist"}, {"pwr/bowl/bowl_overlay.go", "isBelowAny"}, {"pwr/bowl/bowl_fresh.go", "freshEntryWriter.Save"}, {"pwr/bowl/bowl_fresh.go", "freshEntryWriter.Write"},
+		{"pwr/safekeeper.go", "safeKeeper.Close"}, {"pwr/safekeeper.go", "NewSafeKeeper"}, {"wsync/algo.go", "NewContext"},
 	}
 	facts := map[string]interface{}{}
 	cache := map[string]*ast.File{}
